@@ -214,7 +214,7 @@ def cval(e):
 
 
 def unwrap(e):
-    """strip casts, __builtin_expect and statement expressions"""
+    """strip casts, __builtin_expect, statement expressions and the left operand of a comma"""
     while isinstance(e, dict):
         k = e.get('k')
         if k == 'cast':
@@ -223,6 +223,8 @@ def unwrap(e):
             e = e['args'][0]
         elif k == 'stmtexpr' and 'last' in e:
             e = e['last']
+        elif k == 'bin' and e.get('op') == ',':
+            e = e['r']          # the value of (a, b) is b; a's events are CFG elements of their own
         else:
             break
     return e
